@@ -50,8 +50,9 @@ theorem getInt_in64 (m : InMsg) (t : Nat) (v : Int) (h : getInt m t = .val v) : 
 
 /-! ### stored messages -/
 
-/-- fields an engine writes: no empty value, no ResetSeqNumFlag, no scripted verdict; no payload on administrative kinds -/
-def FOK (admin : Bool) (f : Fields) : Prop := ∀ p ∈ f, p.2 ≠ "" ∧ p.1 ≠ 141 ∧ p.1 ≠ 9001 ∧ (admin = true → p.1 ≠ 9000)
+/-- fields an engine writes: no empty value, no ResetSeqNumFlag, no scripted verdict; no payload on administrative kinds;
+    no GapFillFlag (only the unstored SequenceReset-GapFill carries one) -/
+def FOK (admin : Bool) (f : Fields) : Prop := ∀ p ∈ f, p.2 ≠ "" ∧ p.1 ≠ 141 ∧ p.1 ≠ 9001 ∧ (admin = true → p.1 ≠ 9000) ∧ p.1 ≠ 123
 
 structure MsgOK (m : OutMsg) : Prop where
   f : FOK (isAdminKind m.kind) m.f
